@@ -21,7 +21,8 @@ Inductive errk :=
 | ENoProto            (* NoProtoMessageError *)
 | EMarshalReply       (* "cannot marshal reply" *)
 | EUnmarshalResult    (* "cannot unmarshal result" *)
-| EWrappedPublish.    (* forwarder.Publisher: the wrapped publisher failed *)
+| EWrappedPublish     (* forwarder.Publisher: the wrapped publisher failed *)
+| EOther.             (* an error the model never returns (the harness could not classify the implementation's error) *)
 
 Inductive res (A : Type) := Ok (a : A) | Err (e : errk).
 Arguments Ok {A} a.
